@@ -220,7 +220,7 @@ def _inject(ch):
         add_section(fault, ["ix", "zr", 0])
         add_section(twin, ["ix", "zr", 0])
     else:
-        opts = ["undefined-array", "undefined-name", "macro-array-number", "loop-count-register", "count-macro-qubit"]
+        opts = ["undefined-array", "undefined-name", "macro-array-number", "loop-count-register", "count-macro-qubit", "subcircuit-count-register", "subcircuit-count-macro-qubit"]
         if singles:
             opts.append("macro-array-single")
         if letnames:
@@ -246,6 +246,14 @@ def _inject(ch):
             # a loop count must be a number: the register (or an alias, or a qubit) is none
             what = ch.pick([["id", regname]] + [["id", x] for x in singles[:1]] + [["id", t_[0]] for t_ in targets[1:2]])
             fault["body"].append(["sub", None, [["loop", what[1], ["seq", [["g", "X", [["ix", regname, 0]]]]]]]])
+        elif via == "subcircuit-count-register":
+            # ... and so must the count of a subcircuit block
+            what = ch.pick([["id", regname]] + [["id", x] for x in singles[:1]] + [["id", t_[0]] for t_ in targets[1:2]])
+            fault["body"].append(["sub", what[1], [["g", "X", [["ix", regname, 0]]]]])
+        elif via == "subcircuit-count-macro-qubit":
+            fault["macros"].append({"name": "mzz", "params": ["pz"], "body": ["seq", [["sub", "pz", [["g", "X", [["ix", regname, 0]]]]]]]})
+            fault["body"].append(["g", "mzz", [ch.pick([["ix", regname, 0], ["id", regname]])]])
+            stage = "macro"
         elif via == "count-macro-qubit":
             fault["macros"].append({"name": "mzz", "params": ["pz"], "body": ["seq", [["loop", "pz", ["seq", [["g", "X", [["ix", regname, 0]]]]]]]]})
             fault["body"].append(["sub", None, [["g", "mzz", [["ix", regname, 0]]]]])
